@@ -7,6 +7,7 @@ package zz_selftest
 
 import (
 	"encoding/binary"
+	"net"
 	"errors"
 	"fmt"
 	"math/bits"
@@ -287,6 +288,48 @@ func Self_strings() {
 	binary.LittleEndian.PutUint16(buf[4:], 0x1234)
 	acc = hs(acc, string(buf))
 	vs.Emit("strings", acc)
+}
+
+func Self_netip2() {
+	var acc uint64 = 1
+	for _, raw := range [][]byte{net.IPv4(1, 1, 1, 1).To4(), net.IPv4(0, 0, 0, 0).To4(), net.ParseIP("2001:db8::2"), net.ParseIP("::"), net.IPv4(1, 1, 1, 1)} {
+		ip, ok := netip.AddrFromSlice(raw)
+		if ok {
+			acc = h(acc, 1)
+		}
+		if ip.IsUnspecified() {
+			acc = h(acc, 2)
+		}
+		if ip.Is4() {
+			acc = h(acc, 3)
+		}
+		if ip.Is4In6() {
+			acc = h(acc, 4)
+		}
+		a16 := ip.As16()
+		acc = h(acc, uint64(a16[15])+uint64(a16[10])<<8)
+		if ip == netip.IPv4Unspecified() {
+			acc = h(acc, 5)
+		}
+		var f uint64
+		if ok {
+			f |= 1
+		}
+		if ip.IsUnspecified() {
+			f |= 2
+		}
+		if ip.Is4() {
+			f |= 4
+		}
+		if ip.Is4In6() {
+			f |= 8
+		}
+		if ip == netip.IPv4Unspecified() {
+			f |= 16
+		}
+		vs.Emit("netip2_"+string(rune('a'+len(raw)%7))+string(rune('0'+int(raw[len(raw)-1])%10)), f|uint64(a16[15])<<8|uint64(a16[10])<<16)
+	}
+	vs.Emit("netip2", acc)
 }
 
 func Self_netip() {
